@@ -101,7 +101,10 @@ fn script_apis(ctx: &mut Ctx, b: &[u8], d: &dyn Fn() -> serde_json::Value) {
 
 fn slice_parsers(ctx: &mut Ctx, b: &[u8], d: &dyn Fn() -> serde_json::Value) {
     use elements::taproot::{ControlBlock, LeafVersion, TaprootMerkleBranch};
-    call(ctx, "ControlBlock::from_slice", b.len(), d, || ControlBlock::from_slice(b).map(|c| (c.size(), c.serialize().len())).is_ok());
+    if ffi_ok(ctx) {
+        // parses the internal key through libsecp
+        call(ctx, "ControlBlock::from_slice", b.len(), d, || ControlBlock::from_slice(b).map(|c| (c.size(), c.serialize().len())).is_ok());
+    }
     call(ctx, "TaprootMerkleBranch::from_slice", b.len(), d, || TaprootMerkleBranch::from_slice(b).map(|m| m.serialize().len()).is_ok());
     call(ctx, "SchnorrSig::from_slice", b.len(), d, || elements::SchnorrSig::from_slice(b).map(|s| s.to_vec().len()).is_ok());
     if let Some(x) = b.first() {
@@ -109,9 +112,10 @@ fn slice_parsers(ctx: &mut Ctx, b: &[u8], d: &dyn Fn() -> serde_json::Value) {
     }
     call(ctx, "elip100::AssetMetadata::deserialize", b.len(), d, || elements::pset::elip100::AssetMetadata::deserialize(b).is_ok());
     call(ctx, "elip100::TokenMetadata::deserialize", b.len(), d, || elements::pset::elip100::TokenMetadata::deserialize(b).is_ok());
-    call(ctx, "AssetBlindingFactor::from_slice", b.len(), d, || elements::confidential::AssetBlindingFactor::from_slice(b).is_ok());
-    call(ctx, "ValueBlindingFactor::from_slice", b.len(), d, || elements::confidential::ValueBlindingFactor::from_slice(b).is_ok());
     if ffi_ok(ctx) {
+        // scalar range check is an FFI call
+        call(ctx, "AssetBlindingFactor::from_slice", b.len(), d, || elements::confidential::AssetBlindingFactor::from_slice(b).is_ok());
+        call(ctx, "ValueBlindingFactor::from_slice", b.len(), d, || elements::confidential::ValueBlindingFactor::from_slice(b).is_ok());
         call(ctx, "Value::from_commitment", b.len(), d, || elements::confidential::Value::from_commitment(b).is_ok());
         call(ctx, "Asset::from_commitment", b.len(), d, || elements::confidential::Asset::from_commitment(b).is_ok());
         call(ctx, "Nonce::from_commitment", b.len(), d, || elements::confidential::Nonce::from_commitment(b).is_ok());
@@ -212,8 +216,8 @@ fn string_apis(ctx: &mut Ctx, s: &str, d: &dyn Fn() -> serde_json::Value) {
     call(ctx, "sighash-types::from_str", n, d, || (elements::EcdsaSighashType::from_str(s).is_ok(), elements::SchnorrSighashType::from_str(s).is_ok(), elements::pset::PsbtSighashType::from_str(s).is_ok()));
     call(ctx, "Script::from_hex", n, d, || (Script::from_hex(s).is_ok(), Script::from_hex_no_prefix(s).is_ok()));
     call(ctx, "ContractHash::from_json_contract", n, d, || elements::ContractHash::from_json_contract(s).is_ok());
-    call(ctx, "blinding-factors::from_str", n, d, || (elements::confidential::AssetBlindingFactor::from_str(s).is_ok(), elements::confidential::ValueBlindingFactor::from_str(s).is_ok()));
     if ffi_ok(ctx) {
+        call(ctx, "blinding-factors::from_str", n, d, || (elements::confidential::AssetBlindingFactor::from_str(s).is_ok(), elements::confidential::ValueBlindingFactor::from_str(s).is_ok()));
         call(ctx, "Address::from_str", n, d, || Address::from_str(s).map(|a| (a.to_string().len(), a.script_pubkey().len())).is_ok());
         for net in 0..3 {
             call(ctx, "Address::parse_with_params", n, d, || Address::parse_with_params(s, super::c06::params_of(net)).is_ok());
@@ -270,7 +274,7 @@ pub fn run(ctx: &mut Ctx) {
     let scale = move |q: u64, t: u64, s: u64| -> u64 {
         if miri {
             // the interpreter is ~3 orders of magnitude slower than native code
-            s * 20
+            s * 10
         } else if sanitizer {
             // valgrind / ASan: 1-2 orders of magnitude
             s * 400
